@@ -108,7 +108,7 @@ Replay(ds, t, mt) ==
 Expected(c, lf) ==
   IF info.r.len < 1 THEN [kind |-> "err", err |-> "length"]
   ELSE IF info.aseq = <<>> THEN [kind |-> "err", err |-> "nochars"]
-  ELSE IF lf.d = <<>> /\ lf.res.kind = "err" /\ lf.res.err = "failrate" THEN [kind |-> "err", err |-> "failrate"]
+  ELSE IF lf.d = <<>> /\ lf.res.kind = "err" THEN [kind |-> "err", err |-> "failrate"]
   ELSE Replay(lf.d, 1, c.maxTrials)
 
 \* a call made concurrently with others (C14): only what it returned can be judged
@@ -121,8 +121,8 @@ ConcWhys(c, lf) ==
       THEN "P:C14:password-returned-under-concurrency-violates-its-recipe" ELSE "ok",
     IF res.kind = "ok" /\ ~SameFloat(res.ent, c.ent) THEN "P:C14:password-returned-under-concurrency-does-not-carry-the-recipes-entropy" ELSE "ok",
     IF res.kind = "entropy" /\ ~SameFloat(res.ent, c.ent) THEN "P:C14:Entropy()-under-concurrency-differs-from-the-recipes-entropy" ELSE "ok",
-    IF res.kind = "alphabet" /\ res.str # c.alpha THEN "P:C14:Alphabet()-under-concurrency-differs" ELSE "ok",
-    IF res.kind = "err" /\ info.r.len >= 1 /\ info.A >= 1 /\ ~info.refAllowed /\ res.err # "exhausted" THEN "P:C14:call-failed-under-concurrency" ELSE "ok"
+    IF res.kind = "alphabet" /\ res.str # info.aseq THEN "P:C14:Alphabet()-under-concurrency-is-not-the-recipes-alphabet" ELSE "ok",
+    IF res.kind = "err" /\ info.r.len >= 1 /\ info.A >= 1 /\ ~info.refAllowed THEN "P:C14:call-failed-under-concurrency" ELSE "ok"
   >>
 
 LeafWhys(c, lf) ==
@@ -146,17 +146,19 @@ LeafWhys(c, lf) ==
     IF lf.det = 0 THEN "P:C09:same-choices-from-the-source-gave-a-different-result" ELSE "ok",
     IF res.kind = "ok" /\ lf.reads = 0 /\ info.A >= 2 THEN "P:C09:password-produced-without-reading-the-random-source" ELSE "ok",   \* a one-character alphabet is no choice
     IF r.len >= 1 /\ lf.nd > c.maxTrials * r.len THEN "P:C13:more-attempts-than-MaxTrials" ELSE "ok",
-    IF res.kind = "err" /\ res.err = "failrate" /\ ~info.refAllowed THEN "P:C13:refused-although-success-chance-is-comfortably-above-threshold" ELSE "ok",
+    \* (verdicts never depend on the wording of an error: a refusal is an error returned before any draw was made)
+    IF res.kind = "err" /\ lf.nd = 0 /\ r.len >= 1 /\ info.A >= 1 /\ ~info.refAllowed THEN "P:C13:refused-although-success-chance-is-comfortably-above-threshold" ELSE "ok",
     IF res.kind = "ok" /\ info.refRequired THEN "P:C13:not-refused-although-requirements-cannot-be-met-reliably" ELSE "ok",
-    IF res.kind = "err" /\ r.len >= 1 /\ info.A >= 1 /\ res.err \notin {"failrate", "exhausted"}
-      THEN "P:C13:error-for-a-recipe-that-can-be-honoured" ELSE "ok",
+    \* an error after draws were made is only justified when the attempt budget was used up
+    IF res.kind = "err" /\ r.len >= 1 /\ info.A >= 1 /\ lf.nd > 0 /\ lf.nd < c.maxTrials * r.len
+      THEN "P:C13:error-for-a-recipe-that-can-be-honoured-before-the-attempts-were-used-up" ELSE "ok",
     IF res.kind = "ok" /\ (r.len < 1 \/ info.A = 0) THEN "P:C13:password-for-a-recipe-that-cannot-be-honoured" ELSE "ok",
     IF lf.unann > 0 THEN "S:random-source-read-without-an-announced-bounded-draw" ELSE "ok",
     IF lf.left > 0 THEN "S:announced-draw-did-not-read-the-source" ELSE "ok",
     \* implementation-shaped: the CharGen machine along the same index path
     IF res.kind \in {"ok", "err"} /\ lf.unann = 0 /\ lf.trunc = 0
        /\ ~(\/ ex.kind = "ok" /\ res.kind = "ok" /\ chars = ex.out
-            \/ ex.kind = "err" /\ res.kind = "err" /\ res.err = ex.err)
+            \/ ex.kind = "err" /\ res.kind = "err" /\ (res.err = ex.err \/ res.err = "other"))     \* reworded messages are not a disagreement
       THEN "S:CharGen-machine-disagrees-" \o ex.kind ELSE "ok"
   >>
 
